@@ -42,6 +42,10 @@ impl Write for Sink<'_> {
     fn write(&mut self, buf: &[u8]) -> io::Result<usize> {
         self.calls += 1;
         let pos = self.emitted.len();
+        // a writer that re-sends without end never returns: stop it here (reported as a panic of the run)
+        if pos > 4 * self.canonical.len() + 65536 || self.calls > 50_000_000 {
+            panic!("runaway writer: {} bytes emitted in {} calls for {} canonical bytes", pos, self.calls, self.canonical.len());
+        }
         let at_pos = self.canonical.len() >= pos + buf.len() && self.canonical[pos..pos + buf.len()] == *buf;
         if !buf.is_empty() && !at_pos {
             self.all_at_pos = false;
